@@ -25,6 +25,8 @@ PANIC_CALLS = [
     (re.compile(r"^<std::time::Instant as core::ops::arith::(Add|Sub)<core::time::Duration>>::(add|sub)$|^<core::time::Duration as core::ops::arith::(Add|Sub|Mul<u32>)>::(add|sub|mul)$"), "time"),
     (re.compile(r"^core::num::(div_ceil|next_multiple_of|pow|ilog2|ilog10|ilog|abs|neg)$"), "arith"),
     (re.compile(r"^core::iter::traits::iterator::Iterator::step_by$|^core::char::methods::from_digit$"), "arith"),
+    # localtime: `LocalTime - LocalDuration` is a plain u128/u64 subtraction (underflow panics with overflow checks, wraps without)
+    (re.compile(r"^<localtime::LocalTime as core::ops::arith::Sub<localtime::LocalDuration>>::sub$"), "timesub"),
     # sqlite's panicking column accessor: `Row::read::<T>(col)` = `try_read(col).unwrap()`
     (re.compile(r"^sqlite::cursor::Row::read$"), "dbread"),
 ]
